@@ -488,9 +488,11 @@ def gen_e_case(rng, method, big):
     N = rng.choice([3 * D + 6, 4 * D + 10, 40, 60]) if not big else rng.choice([4 * D + 10, 6 * D + 20, 150])
     N = max(N, 12)
     d = rng.randint(1, D - 1) if D > 1 else 1
-    k = rng.randint(max(4, d + 1), min(N - 1, 12))
+    k = rng.randint(4, min(N - 1, 15))
     if method == "lltsa":
-        d = min(d, k - 1)
+        # d = k - 1 makes every local tangent basis span the whole neighbourhood: the alignment matrix is
+        # then rounding noise (I - G G^T = 0); keep two spare directions
+        d = max(1, min(d, k - 3))
     # latent low-dimensional structure + correlated noise + offset
     q = min(D, 3)
     lat = [[rng.uniform(-3, 3) for _ in range(q)] for _ in range(N)]
@@ -659,6 +661,20 @@ def eval_e(ctx, exe1, exe2, cases, stats, rng, rotate_every=2):
                 ctx.violation(c, "tapkee::embed(%s) on the rotated data returns non-finite values" % c["method"])
                 continue
             R = rots[i]
+            # the clause is about the pencil for the SAME alignment / weight matrix: kernel and distance
+            # values are rotation invariant (rotation_keeps_kernel_values), but M computed from the rounded R X
+            # can differ when M itself is ill-conditioned (C08's territory); then the comparison says nothing
+            try:
+                M1 = [parse_hex(x) for x in p["Mtok"]]
+                M2 = [parse_hex(x) for x in q["Mtok"]]
+                nm = math.sqrt(math.fsum(x * x for x in M1))
+                dm = math.sqrt(math.fsum((x - y) ** 2 for x, y in zip(M1, M2)))
+            except (ValueError, OverflowError):
+                nm, dm = 0.0, 1.0
+            stats["rot_max_M_reldiff"] = max(stats["rot_max_M_reldiff"], dm / max(nm, 1e-300))
+            if not dm <= 1e-9 * max(nm, 1e-300):
+                stats["rot_skipped_unstable_M"] += 1
+                continue
             Y2 = unflat(q["Y"], N, d)
             P2 = unflat(q["P"], D, d)
             RP = matmul(R, P)
@@ -727,7 +743,7 @@ def build_all(ctx):
 def new_stats():
     return {"malformed": 0, "spec_ok": 0, "spec_fail": 0, "other_triangle_differs": 0, "g_ok": 0,
             "select_bad": 0, "e_ok": 0, "e_fail": 0, "ref_failed": 0, "rot_ok": 0, "rot_fail": 0,
-            "rot_cols": 0, "rot_skipped_gap": 0, "rot_min_cos": 1.0, "e_max_res": 0.0, "triangle_votes": {}}
+            "rot_cols": 0, "rot_skipped_gap": 0, "rot_skipped_unstable_M": 0, "rot_max_M_reldiff": 0.0, "rot_min_cos": 1.0, "e_max_res": 0.0, "triangle_votes": {}}
 
 
 K_KINDS = ("plain", "plain", "correlated", "symmetric", "alignment", "empty", "zero")
@@ -755,7 +771,7 @@ def run(ctx):
     stats["t_build_s"] = round(ctx.elapsed(), 1)
     hist = {"corpus": 0, "K": {}, "G": 0, "E": {}}
     quick = ctx.quick
-    nk, ng, ne = (80, 24, 10) if quick else (600, 200, 80)
+    nk, ng, ne = (80, 24, 10) if quick else (3000, 400, 400)
     kc, gc, ec = make_cases(rng, nk, ng, ne, big=not quick)
     ck, ce, cg = [], [], []
     for name, c in ctx.corpus():
